@@ -4,6 +4,7 @@ INVARIANT JumpsMatch
 INVARIANT HistoryOK
 INVARIANT DivSound
 INVARIANT CountsOK
+INVARIANT AccelSound
 INVARIANT Deterministic
 INVARIANT Terminal
 PROPERTY Grows
